@@ -1405,3 +1405,11 @@ VP("C18-R3D-mut-nested-dropped", "C18", "update form: nested results computed bu
    "        tree.update(\n            {", "        dict(tree).update(\n            {")
 VP("C18-R3D-mut-exists-table", "C18", "table-driven exists check: 'file' row tests isdir", "C18-R3D", "cincoconfig/fields/file_field.py",
    '("file", "file", os.path.isfile)', '("file", "file", os.path.exists)')
+VP("C16-R3D-mut-prefix-not-handed", "C16", "generator form: the recursion is given the parent's base instead of this schema's prefix", "C16-R3D", "cincoconfig/support.py",
+   "            yield from _iter_all_fields(field, prefix)", "            yield from _iter_all_fields(field, base)")
+VP("C16-R3D-mut-table-loses-int", "C16", "storage-type table loses int: integer fields get no option", "C16-R3D", "cincoconfig/support.py",
+   "_VALUE_STORAGE_TYPES = (str, float, int)", "_VALUE_STORAGE_TYPES = (str, float)")
+VP("C16-R3D-mut-off-switch-same-string", "C16", "helper form: --no- switch built without negate", "C16-R3D", "cincoconfig/support.py",
+   "        _option_string(path, negate=True),", "        _option_string(path),")
+VP("C16-R3D-mut-supplied-truthy", "C16", "generator form: supplied means truthy", "C16-R3D", "cincoconfig/support.py",
+   "        if key not in ignore and value is not None:\n            yield key, value", "        if key not in ignore and value:\n            yield key, value")
